@@ -9,6 +9,11 @@ pub fn run(rng: &mut Rng, n: usize, out: &mut Out, which: &str) {
     let mut st = ImplState::new();
     let g = Gen::new();
     out.run(&mut st, "impl.viafen on");
+    if which == "c17" {
+        // searches on the shared searcher are tied to the model incl. the table digest: both sides must use the same keys
+        let z = crate::zobrist::ZobristTable::new();
+        out.run(&mut st, &format!("s.new {}", crate::ops::zobrist_keys_text(&z)));
+    }
     // corpus first (every hand-made tricky position, then positions after each legal move from them)
     let mut queue: Vec<crate::board::Board> = Vec::new();
     for fen in posgen::CORPUS { queue.push(crate::board::Board::new(fen)); }
